@@ -168,15 +168,15 @@ Proof.
     + destruct oi as [i|]; [r_same | apply IH; assumption].
 Qed.
 
-Lemma rel_print_dirs l : Forall Q l -> Phi (print_dirs cf w l) (print_dirs cf w' l).
+Lemma rel_print_dirs l : Forall Q l -> forall v, Phi (print_dirs cf w l v) (print_dirs cf w' l v).
 Proof.
-  induction l as [|d r IH]; intros Hq; cbn [print_dirs]; [r_same|].
+  induction l as [|d r IH]; intros Hq v; cbn [print_dirs]; [r_same|].
   inversion Hq as [|? ? Hd Hr]; subst.
   destruct d; try r_same.
   destruct (lookup_directive name) as [[arglens ?]|]; [|r_same].
   destruct (negb _); [r_same|].
   pose proof (Qch _ Hd) as Hc. cbn [children] in Hc.
-  r_bind; [apply rel_eval_list; exact Hc|]. r_bind; [apply IH; exact Hr|]. r_same.
+  r_bind; [apply rel_eval_list; exact Hc|]. r_bind; [r_same|]. r_bind; [r_same|]. r_bind; [apply IH; exact Hr|]. r_same.
 Qed.
 
 Lemma rel_if_conds cs : Forall Q cs -> Phi (if_conds w cs) (if_conds w' cs).
